@@ -78,7 +78,7 @@ func run(c *vk.Ctx) {
 	if !c.Quick() {
 		modes = append(modes, "mixed:2", "mixed:3")
 	}
-	nCases := c.Pick(40, 300)
+	nCases := c.Pick(40, 160)
 	sem.RunCases(c, base, "mem", nCases, gen.Options{WideEvery: 4, AlgebraEvery: 5, HierarchyEvery: 3}, 4, 8, func(i int, r *rand.Rand, p *sem.Prepared, contextual []*openfgav1.TupleKey) {
 		oneCase(c, i, r, p, contextual, servers, modes)
 	})
